@@ -119,7 +119,7 @@ pub fn run(ctx: &mut Ctx) {
         }
     }
     ctx.stratum("S-loose-spellings", false);
-    let n = ctx.tier.pick(3_000u64, 300_000u64);
+    let n = ctx.tier.n(3_000, 300_000);
     for i in 0..n {
         if ctx.take() {
             let mut r = Rng::for_case(ctx.seed, "C05-S", i);
@@ -143,7 +143,7 @@ pub fn run(ctx: &mut Ctx) {
         }
     }
     ctx.stratum("R-random-token-soups", false);
-    let n = ctx.tier.pick(100_000u64, 10_000_000u64);
+    let n = ctx.tier.n(100_000, 10_000_000);
     for i in 0..n {
         if ctx.take() {
             let mut r = Rng::for_case(ctx.seed, "C05-R", i);
